@@ -680,7 +680,9 @@ def geterrortext(
         raise
     except BaseException:
         errortext = f"{type(exc).__name__}: {exc}"
-    return errortext
+    # The text travels as a utf-8 string: a lone surrogate (for example in
+    # the exception's message) must not make the error unreportable.
+    return errortext.encode("utf-8", "backslashreplace").decode("utf-8")
 
 
 class RemoteError(Exception):
